@@ -474,6 +474,12 @@ func (w *worldA) checkEjections() {
 			if len(before) == 0 {
 				continue
 			}
+			if ej.stalled[wid] {
+				// the worker was stalled when the memory check ran: it ejects later, in
+				// another step and from another buffer than the one recorded here
+				out.Probe("ejection_deferred_worker_stalled")
+				continue
+			}
 			info := map[string]collect.VerifTraceInfo{}
 			for _, b := range before {
 				info[b.TraceID] = b
